@@ -2,6 +2,7 @@
 """runmutants.py PID [PID...] : confirm the seeded changes in /tmp/mut/PID (patchN.diff + demoN.py) with
 tools/trymutant.sh, keep confirmed ones under /verif/seeded/PID-N/ (patch.diff, demo.py, NOTES.md, meta.json)."""
 import json
+import os
 import re
 import shutil
 import subprocess
@@ -11,7 +12,7 @@ from pathlib import Path
 V = Path(__file__).resolve().parents[1]
 tier = "quick"
 for pid in sys.argv[1:]:
-    src = Path("/tmp/mut") / pid
+    src = Path(os.environ.get("MUT_DIR", "/tmp/mut")) / pid
     for n in (1, 2, 3, 4):
         patch, demo = src / ("patch%d.diff" % n), src / ("demo%d.py" % n)
         if not patch.exists() or not demo.exists():
